@@ -214,6 +214,14 @@ def run(ctx):
                      "about mitigation (unit and shared-component stages do)" % k)
     ctx.extra["wholerun_evidence"] = {k: v for k, v in sorted(ctx.counts.items()) if k.startswith("wholerun_")}
     ctx.assumptions.append("volumes are day counts x rate x 86.4; rates on the exact grid (rate 1.0)")
+    _end_arg_problem(ctx)
+
+
+def _end_arg_problem(ctx):
+    from harness.adapters import emission as E
+
+    for msg in E.END_ARG_PROBLEM:
+        ctx.broke("correspondence: summary end-date argument", msg)
 
 
 def replay(ctx, data):
